@@ -18,7 +18,7 @@ EXPLANATION = (
     "starts to 'v.0' and ends to 'v.1' (expansion naming scheme agrees with its reader); (R7) under a given weight superset the cap on non-empty paths is "
     "the caller's k (taken before k is overwritten by the number of candidate weights) and the cap row is present.  "
     " (R5, extended) the remove-empty filters decide emptiness on the internal (expanded) route where the class publishes one, and filter `_paths_internal` / `_walks_internal` with the same mask - in node-weighted mode a route through one node is not empty; (R7, extended) a class that forces allow_empty_paths itself (one layer per given weight) removes the unused layers in get_solution unless the caller asked for empty paths. "
-    "NOT decided: that the solver returns a point satisfying the rows; simplicity of DAG paths and 'exactly k' follow from the rows."
+    "On the greedy route the working graph of the peeling keeps the topology of the caller's graph (no edge or node added or removed inside the loop), so every peeled path runs between a node without incoming and a node without outgoing edges of that graph (C17.R5).  NOT decided: that the solver returns a point satisfying the rows; simplicity of DAG paths and 'exactly k' follow from the rows."
     ' (R5, round 3) the remove-empty filters keep every route with at least one internal element (the smallest kept length is computed from the filter test; `> 1` is a violation).'
     ' (R7, hunt 4) negative entries of a weight superset are rejected.'
     ' (R5, seeds 6) the greedy route of kFlowDecomp publishes one weight per path also when it pads to k (C02.R4).'
